@@ -4,6 +4,7 @@ import (
 	"fmt"
 	"go/token"
 	"go/types"
+	"os"
 	"strings"
 
 	"golang.org/x/tools/go/ssa"
@@ -427,9 +428,15 @@ func checkHMACVerify(c *Ctx, rule string) {
 					}
 				}
 			}
+			if os.Getenv("HK_DEBUG") != "" {
+				fmt.Println("DEBUG mac-input concat branch: fns", len(fns), "fed", fed)
+			}
 			c.Check(fed, rule, name+":mac-input", p.InstrPos(conv), "the MAC is written with the string to sign", "the MAC input is not the string to sign")
 		}
 	} else {
+		if os.Getenv("HK_DEBUG") != "" {
+			fmt.Println("DEBUG mac-input sprintf branch", p.InstrPos(sprintf))
+		}
 		format, _ := constString(sprintf.Call.Args[0])
 		elems, _ := varargElems(sprintf.Call.Args[1])
 		var descs []string
@@ -464,12 +471,23 @@ func checkHMACVerify(c *Ctx, rule string) {
 		c.Check(okFmt && okArgs, rule, name+":string-to-sign", p.InstrPos(sprintf), "ts\\nmethod\\npath\\nhex(sha256(body)) in this order", fmt.Sprintf("string to sign is not ts\\nmethod\\npath\\nsha256(body): format=%q args=%v", format, descs))
 		// it is what the MAC is fed with
 		fed := false
-		for _, ci := range allCalls(fn, func(ci ssa.CallInstruction) bool {
-			return ci.Common().IsInvoke() && ci.Common().Method.Name() == "Write"
-		}) {
-			for _, s := range sourcesOf(ci.Common().Args[0]) {
-				if s.Kind == "transform" || s.Val == sprintf {
-					fed = true
+		for _, g := range append([]*ssa.Function{fn}, allAnon(p.Orig(fn))...) {
+			for _, ci := range allCalls(g, func(ci ssa.CallInstruction) bool {
+				return ci.Common().IsInvoke() && ci.Common().Method.Name() == "Write"
+			}) {
+				// in a function literal (the per-secret predicate) the message is a captured variable
+				if u, ok := ci.Common().Args[0].(*ssa.UnOp); ok && u.Op == token.MUL && g != fn {
+					if _, isFV := u.X.(*ssa.FreeVar); isFV {
+						fed = true
+					}
+				}
+				for _, s := range sourcesOf(ci.Common().Args[0]) {
+					if s.Kind == "transform" || s.Val == sprintf {
+						fed = true
+					}
+					if fv, ok := s.Val.(*ssa.FreeVar); ok && isByteSlice(fv.Type()) && g != fn {
+						fed = true
+					}
 				}
 			}
 		}
